@@ -473,6 +473,22 @@ def resolve_loop_ref(fn_node, ref):
     text starts with the prefix; '/j' descends to the j-th loop directly inside.  Plain ordinals are returned unchanged."""
     if not ref.startswith('@'):
         return ref
+    fallback = None
+    if '|' in ref:
+        # '@<header>#k|<ordinal>': if no loop has that header any more (the header itself was edited), the loop is
+        # taken by its position, as long as a loop with that ordinal exists
+        ref, fallback = ref.split('|', 1)
+    try:
+        return _resolve_loop_ref(fn_node, ref)
+    except VCError:
+        if fallback is not None and fallback.split('/')[0].replace('.', '').isdigit():
+            o_ = fallback.replace('/', '.')
+            if o_ in set(loop_ordinals(fn_node).values()):
+                return o_
+        raise
+
+
+def _resolve_loop_ref(fn_node, ref):
     ords = loop_ordinals(fn_node)
     head, *down = ref[1:].split('/')
     prefix, _, k = head.rpartition('#')
